@@ -119,7 +119,7 @@ pub fn run(ctx: &Ctx) {
 
     // (2) depth-2 over the extremes pool
     let c2 = Cells2::new(pool::extremes());
-    let stride = ctx.tier.pick(7u64, 1u64);
+    let stride = ctx.tier.pick(2u64, 1u64);
     let n2 = c2.count() / stride;
     let overflow2 = std::sync::atomic::AtomicU64::new(0);
     ctx.enumerate(
@@ -145,7 +145,7 @@ pub fn run(ctx: &Ctx) {
     ctx.extra("depth2_overflow_cells", serde_json::json!(overflow2.load(std::sync::atomic::Ordering::Relaxed)));
 
     // (3) random trees
-    let n = ctx.tier.pick(40_000u64, 1_500_000u64);
+    let n = ctx.tier.pick(400_000u64, 3_000_000u64);
     ctx.random_min(
         "random-trees",
         n,
